@@ -5,6 +5,7 @@ except NameError:
     def assume(cond):
         return None
 from itertools import islice, dropwhile, takewhile, chain
+from functools import partial
 from boltons.iterutils import split_iter, chunked_iter, windowed_iter, unique_iter, first
 from glom.core import glom, T, S, SKIP, STOP, _MISSING, Path, TargetRegistry, Call, Spec, Pipe, Invoke
 from glom.streaming import Iter, First
@@ -171,3 +172,16 @@ def iter_all_ref(self):
 
 def iter_first_ref(self, key=T, default=None):
     return (self, First(key=key, default=default))
+
+
+def first_init_ref(self, key=T, default=None):
+    """First(key, default): the first item of the target whose key spec (evaluated with the current scope) is truthy, else default --
+    built as a Call of boltons' first() over the target itself"""
+    self._spec = key
+    self._default = default
+    spec_glom = Spec(Call(partial, args=(Spec(self._spec).glom,), kwargs={'scope': S}))
+    self._first = Call(first, args=(T,), kwargs={'default': default, 'key': spec_glom})
+
+
+def first_glomit_ref(self, target, scope):
+    return self._first.glomit(target, scope)
